@@ -93,7 +93,7 @@ def _bind_params(tier):
     return [dict(n_ctx=n, n_ts=t, auth=a, alter=al) for (n, t) in shapes for a in auths for al in (False, True)]
 
 
-@harness(P, params=_bind_params, bounds="bind / alter_context: 0..8 contexts x 0..4 transfer syntaxes (listed shapes), every id/version/uuid/flag symbolic, auth trailer absent or of listed sizes",
+@harness(P, per_job=True, params=_bind_params, bounds="bind / alter_context: 0..8 contexts x 0..4 transfer syntaxes (listed shapes), every id/version/uuid/flag symbolic, auth trailer absent or of listed sizes",
          outside="more than 8 contexts; other shapes (every element goes through the same loop body)", must_reach=("bind",))
 def bind(c, n_ctx, n_ts, auth, alter):
     cls, pt = (_bind.AlterContext, _pdu.PacketType.ALTER_CONTEXT) if alter else (_bind.Bind, _pdu.PacketType.BIND)
@@ -119,7 +119,7 @@ def _ack_params(tier):
     return [dict(addr=a, n_res=r, auth=au, alter=al) for a in range(0, 10) for r in (0, 1, 2, 6) for au in (None, 1, 7, 16) for al in (False, True)]
 
 
-@harness(P, params=_ack_params, bounds="bind_ack / alter_context_resp: secondary address of every length 0..9 (ASCII digits), 0..6 results with symbolic result code (defined values), "
+@harness(P, per_job=True, params=_ack_params, bounds="bind_ack / alter_context_resp: secondary address of every length 0..9 (ASCII digits), 0..6 results with symbolic result code (defined values), "
          "reason, syntax uuid and version; auth trailer absent / listed sizes", outside="non-ASCII secondary addresses", must_reach=("bind_ack",))
 def bind_ack(c, addr, n_res, auth, alter):
     cls, pt = (_bind.AlterContextResponse, _pdu.PacketType.ALTER_CONTEXT_RESP) if alter else (_bind.BindAck, _pdu.PacketType.BIND_ACK)
@@ -161,7 +161,7 @@ def _req_params(tier):
     return [dict(kind=k, n=n, auth=a, obj=o) for k in ("request", "response", "fault") for n in lens for a in auths for o in ((False, True) if k == "request" else (False,))]
 
 
-@harness(P, params=_req_params, bounds="request / response / fault: stub of listed lengths (0..17 quick; 0..17,31..33,64 thorough) with symbolic content, object UUID present/absent (flag "
+@harness(P, per_job=True, params=_req_params, bounds="request / response / fault: stub of listed lengths (0..17 quick; 0..17,31..33,64 thorough) with symbolic content, object UUID present/absent (flag "
          "PFC_OBJECT_UUID set accordingly), alloc hint / context id / opnum / cancel count / status / flags symbolic, auth trailer absent / listed sizes",
          outside="other stub lengths", must_reach=("request/response/fault",))
 def req_resp(c, kind, n, auth, obj):
@@ -217,7 +217,7 @@ def _vt_params(tier):
     return out
 
 
-@harness(P, params=_vt_params, bounds="verification trailer with 1..4 commands (bitmask, pcontext, header2, unknown type with 0..9 value bytes), all fields symbolic; last command "
+@harness(P, per_job=True, params=_vt_params, bounds="verification trailer with 1..4 commands (bitmask, pcontext, header2, unknown type with 0..9 value bytes), all fields symbolic; last command "
          "carries SEC_VT_COMMAND_END; each command also round-trips alone through Command.unpack", outside="more than 4 commands", must_reach=("verification trailer", "command"))
 def verification(c, kinds, vlen):
     cmds = [_cmd(c, i, k, i == len(kinds) - 1, vlen) for i, k in enumerate(kinds)]
@@ -259,7 +259,7 @@ def _map_params(tier):
     return out
 
 
-@harness(P, params=_map_params, bounds="ept_map request: towers of 0..6 floors (typed TCP/IP/RPC/UUID floors and raw floors with symbolic protocol id, LHS 0..3 and RHS 0..7 bytes, so the "
+@harness(P, per_job=True, params=_map_params, bounds="ept_map request: towers of 0..6 floors (typed TCP/IP/RPC/UUID floors and raw floors with symbolic protocol id, LHS 0..3 and RHS 0..7 bytes, so the "
          "tower length takes every residue mod 8), object UUID and entry handle present/absent, max_towers symbolic; each floor also round-trips alone",
          outside="more than 6 floors", must_reach=("ept_map",))
 def ept_map(c, spec, obj, eh):
@@ -289,7 +289,7 @@ def _res_params(tier):
     return out
 
 
-@harness(P, params=_res_params, bounds="ept_map result: 0..3 (quick) / 0..6 (thorough) towers whose lengths take every residue mod 8, symbolic floors, status and entry handle; "
+@harness(P, per_job=True, params=_res_params, bounds="ept_map result: 0..3 (quick) / 0..6 (thorough) towers whose lengths take every residue mod 8, symbolic floors, status and entry handle; "
          "unpack(pack(x)) == x and pack(unpack(pack(x))) == pack(x)", outside="more towers", must_reach=("ept_map result",))
 def ept_map_result(c, specs, eh):
     towers = []
